@@ -4,41 +4,35 @@ import (
 	"golang.org/x/tools/go/ssa"
 )
 
-// sort.Slice / sort.SliceStable use reflectlite.Swapper (unsafe/reflect) which the interpreter does not execute.
-// Both are modelled by the insertion sort the real implementations run on short inputs (pdqsort: n <= 12,
-// stable: n <= 20 = one block): identical sequence of less() calls and swaps, hence the identical resulting order,
-// also among elements that compare equal. Longer slices end the path UNSUPPORTED.
+// sort.Slice / sort.SliceStable use reflection (reflectlite.Swapper) in their real bodies. They are modelled by a stable
+// insertion sort driven by the caller's real `less` closure (each comparison with symbolic operands is a solver-checked
+// fork). For SliceStable the result is uniquely determined by `less` (strict weak order), so this agrees with the real
+// implementation; for sort.Slice the order of equal elements is unspecified in Go and only this (stable) order is explored.
 func init() {
 	extraIntrinsics = append(extraIntrinsics, func(in *Interp, fn *ssa.Function, name string, args []V) (V, bool) {
-		var maxN int
-		switch name {
-		case "sort.Slice":
-			maxN = 12
-		case "sort.SliceStable":
-			maxN = 20
-		default:
+		if name != "sort.SliceStable" && name != "sort.Slice" {
 			return nil, false
 		}
 		ifc, ok := args[0].(Iface)
-		if !ok || ifc.T == nil {
-			panic(goPanic{Str{S: "sort: nil slice interface"}})
+		if !ok {
+			return nil, false
 		}
 		sl, ok := ifc.V.(Slice)
 		if !ok {
-			panic(unsupported(name + " on a non-slice value"))
-		}
-		n := len(sl.A)
-		if n > maxN {
-			panic(unsupported(name + " on more elements than the insertion-sort range of the real implementation"))
+			panic(unsupported("sort.Slice on non-slice"))
 		}
 		less := args[1]
+		n := len(sl.A)
+		ci := func(k int) V { return in.cInt(uint64(k), 64, true) }
 		for i := 1; i < n; i++ {
 			for j := i; j > 0; j-- {
-				r := in.callValue(less, []V{in.cInt(uint64(j), 64, true), in.cInt(uint64(j-1), 64, true)})
-				if !in.truth(r.(Bool)) {
+				r := in.callValue(less, []V{ci(j), ci(j - 1)}).(Bool)
+				if !in.truth(r) {
 					break
 				}
-				sl.A[j], sl.A[j-1] = sl.A[j-1], sl.A[j]
+				a, b := copyVal(sl.A[j]), copyVal(sl.A[j-1])
+				storeInto(&sl.A[j], b)
+				storeInto(&sl.A[j-1], a)
 			}
 		}
 		return nil, true
